@@ -7,7 +7,7 @@
    build the Go struct from a model node and its current value. *)
 From Coq Require Import ZArith List Bool.
 Require Import QzBase.Calendar QzBase.GoTime QzBase.Fields.
-Require Import QzCron.Gen.Params QzCron.Gen.CsmSrc QzCron.CsmModel QzCron.SrcEquiv.
+Require Import QzCron.Gen.Params QzCron.Gen.CsmSrc QzCron.CsmModel QzCron.SrcEquiv QzCron.NftProofs QzCron.SrcMachine.
 Import ListNotations.
 Open Scope Z_scope.
 
@@ -83,3 +83,18 @@ Theorem SrcTie_machine_day_node : forall f s, wf_fields f = true -> 1 <= s_mon s
   g_DayNode_isValid N = node_is_valid (mk_csm f) 3 s.
 Proof. exact src_machine_day_node. Qed.
 Print Assumptions SrcTie_machine_day_node.
+
+(* the machine of the model with the TRANSLATED Go node code plugged in (src_wall_next: SrcMachine.v)
+   returns, from every valid wall clock reading, exactly what the model's wall_next returns -- the
+   function NextFireTime's model and every theorem of C01 C02 C06 C14 are built on *)
+Theorem SrcTie_wall_next : forall f, wf_fields f = true -> forall w, valid_civil w = true -> 0 <= year_of w <= 3940 ->
+  src_wall_next f w = wall_next f w.
+Proof. exact src_wall_next_eq. Qed.
+Print Assumptions SrcTie_wall_next.
+
+(* non-vacuity: "0 15 10 LW * ?" from 2024-06-01T00:00:00, evaluated on the translated code: Friday 28 June
+   (the last day, the 30th, is a Sunday) *)
+Example SrcTie_wall_next_example :
+  src_wall_next {| fl_sec := [0]; fl_min := [15]; fl_hour := [10]; fl_dom := [0]; fl_dom_n := 3; fl_mon := [];
+                   fl_dow := []; fl_dow_n := 0; fl_year := [] |} (2024, 6, 1, 0, 0, 0) = WNext (2024, 6, 28, 10, 15, 0).
+Proof. vm_compute. reflexivity. Qed.
